@@ -43,3 +43,21 @@ def run(chk):
                           ", ".join(x[5:] for x in region), len(rets) - len(plain), ", ".join(str(fn.line_of(r)) for r in plain[:4])),
                key="rwexits|%s" % "|".join(x[5:] for x in region))
     chk.floor(R + ":categories", n, 3)
+
+
+def run_bitmask(chk):
+    R = "R-BITMASK-HOMOGENEOUS"
+    chk.rule(R, "every multi-argument Support::bit_mask<>() call in the instruction-API units builds its mask from enumerators of one enum type "
+                "(type-resolved): a mask that mixes RegType with RegGroup (or any two enums) tests bits that mean something else")
+    n = 0
+    for unit, rex in (("asmjit/x86/x86instapi.cpp", r"asmjit::x86::InstInternal::[A-Za-z_0-9]+$|asmjit::x86::InstInternal_[A-Za-z_0-9]+$"),
+                      ("asmjit/arm/a64instapi.cpp", r"asmjit::a64::InstInternal::[A-Za-z_0-9]+$")):
+        f = chk.facts(unit, funcs=rex)
+        for fn in cfg.load_functions(f):
+            for i, x in fn.calls(lambda x: (x.get("cn") or "") == "bit_mask" and len(x.get("args", [])) >= 2):
+                tys = sorted({(fn.e(a) or {}).get("ty") or "?" for a in x["args"]})
+                n += 1
+                chk.ob(R, "%s|%s" % (fn.name.split("::")[-1], " ".join(fn.text(i).split())[:50]), len(tys) == 1, loc=fn.loc(i),
+                       detail="`%s` combines values of different types %s in one bit mask" % (" ".join(fn.text(i).split())[:70], tys),
+                       key="bitmask|%s|%d" % (fn.name.split("::")[-1], n))
+    chk.floor(R + ":calls", n, 2)
